@@ -8,7 +8,8 @@ Three executable artefacts, all total:
                 yields '\0' exactly like the C string does for the positions the C++ reads.
   * `compile`   copy of `MatchCompiler._compilePattern` / `_compileCmd` (tools/matchcompiler.py):
                 pattern string ↦ straight-line program of guarded steps; `run` executes it.
-  * `sem`       the documented pattern language on parsed patterns (word level).
+  * `sem`/`lang` the documented pattern language on parsed patterns (word level; `lang` with the InternalError outcome).
+  * `findWith`  the find loop shared by Token::findmatch / findsimplematch and the compiled findmatchN.
 -/
 namespace Cppcheck.Match
 open Cppcheck.Wire
@@ -179,6 +180,58 @@ def semWords : List Word → List Tok → Nat → Bool
 def sem (ws : List Word) (ts : List Tok) (v : Nat) : Res :=
   if usesVarid ws ∧ v = 0 then .err else .ofBool (semWords ws ts v)
 
+/-! ### the language with its error outcome
+
+`semWords` is the two-valued core (what a pattern accepts for a given non-zero `varid`).  The real
+matchers have a third outcome: `%varid%` evaluated while the `varid` argument is 0 throws
+InternalError("Internal error. Token::Match called with varid 0.").  `lang` is the documented
+language including that outcome, raised at the moment a `%varid%` alternative is evaluated against
+a token (alternatives are tried from left to right, the null token evaluates nothing).
+`sem` above is its coarse predecessor (error up front whenever the pattern mentions `%varid%`);
+the two agree whenever `v ≠ 0` or the pattern does not use `%varid%` (`lang_eq_sem`). -/
+
+def Atom.evalR (a : Atom) (t : Tok) (v : Nat) : Res :=
+  if a = .cmd .varid ∧ v = 0 then .err else .ofBool (a.eval t v)
+
+/-- alternatives `a|b|c`: the first one that accepts decides, an error met before that is the result -/
+def altsR : List Atom → Tok → Nat → Res
+  | [], _, _ => .f
+  | a :: as, t, v =>
+    match a.evalR t v with
+    | .t => .t
+    | .err => .err
+    | .f => altsR as t v
+
+def langWords : List Word → List Tok → Nat → Res
+  | [], _, _ => .t
+  | .cls cs :: ws, ts, v =>
+    match ts with
+    | [] => .f
+    | t :: r => if (match t.str with | [c] => cs.contains c | _ => false) then langWords ws r v else .f
+  | .alts as opt :: ws, ts, v =>
+    match ts with
+    | [] => if opt then langWords ws [] v else .f
+    | t :: r =>
+      match altsR as t v with
+      | .t => langWords ws r v
+      | .err => .err
+      | .f => if opt then langWords ws (t :: r) v else .f
+  | .neg s :: ws, ts, v =>
+    match ts with
+    | [] => langWords ws [] v
+    | t :: r => if t.str = s then .f else langWords ws r v
+  | .one a :: ws, ts, v =>
+    match ts with
+    | [] => .f
+    | t :: r =>
+      match a.evalR t v with
+      | .t => langWords ws r v
+      | .err => .err
+      | .f => .f
+
+/-- **the documented pattern language**: match / no match / InternalError -/
+def lang (ws : List Word) (ts : List Tok) (v : Nat) : Res := langWords ws ts v
+
 /-! ## 2. The match compiler -/
 
 /-- a compiled comparison: `%cmd%`, or a literal with the `tokTypes` guard the compiler adds -/
@@ -307,6 +360,46 @@ def findFrom (p : Prog) (v : Nat) : List Tok → Nat → Nat → Option Nat ⊕ 
       | .t => .inl (some idx)
       | .err => .inr ()
       | .f => findFrom p v r (idx + 1) b
+
+/-! ### the find loop
+
+`for (tok = start; tok && tok != end; tok = tok->next()) if (MATCH(tok)) return tok; return nullptr;`
+— the same loop in lib/token.cpp (`findmatchImpl`, `findsimplematchImpl`, each with and without
+`end`) and in the code `_compileFindPattern` emits; only `MATCH` differs.  An InternalError thrown
+by `MATCH` leaves the loop.  `findFrom` above is this loop for the compiled matcher with an
+accumulator (`findFrom_eq_findWith`). -/
+
+/-- result of a find: position relative to `start` / `nullptr` / InternalError -/
+inductive Find | hit (i : Nat) | none | err
+  deriving DecidableEq, Repr, Inhabited
+
+def Find.succ : Find → Find
+  | .hit i => .hit (i + 1)
+  | r => r
+
+def Find.toString : Find → String
+  | .hit i => ToString.toString i | .none => "N" | .err => "E"
+
+/-- the find loop over any matcher `m`; `budget` = number of tokens in front of `end` -/
+def findWith (m : List Tok → Res) : List Tok → Nat → Find
+  | [], _ => .none
+  | _ :: _, 0 => .none
+  | t :: r, b + 1 =>
+    match m (t :: r) with
+    | .t => .hit 0
+    | .err => .err
+    | .f => (findWith m r b).succ
+
+/-- budget of a call whose `start` is token number `s` of a list of `n` tokens; `e` = number of the
+    `end` token (`none`: the form without `end`; `e = n`: `end == nullptr`; `e < s`: `end` lies in
+    front of `start` and is never reached) -/
+def endBudget (n s : Nat) (e : Option Nat) : Nat :=
+  match e with
+  | none => n - s
+  | some e => if s ≤ e then e - s else n - s
+
+def findFromStr : Option Nat ⊕ Unit → String
+  | .inl (some i) => toString i | .inl none => "N" | .inr () => "E"
 
 /-! ## 3. Byte-level interpreter (`Token::Match`) -/
 
@@ -489,6 +582,14 @@ def simpleMatchB (p : Str) (ts : List Tok) : Bool :=
   | [] => false
   | _ => simpleLoop (p.length + 1) p ts
 
+/-- `Token::findmatch(start, pattern, [end], varid)` (lib/token.cpp `findmatchImpl`) -/
+def findInterp (p : Str) (v : Nat) : List Tok → Nat → Find :=
+  findWith (fun ts => interpB p ts v)
+
+/-- `Token::findsimplematch(start, pattern, pattern_len, [end])` (`findsimplematchImpl`) -/
+def findSimpleInterp (p : Str) : List Tok → Nat → Find :=
+  findWith (fun ts => .ofBool (simpleMatchB p ts))
+
 /-! ## 4. Well-formed patterns (decidable; every pattern literal in lib/*.cpp is checked) -/
 
 def isCmdOrPlain (a : Str) : Bool :=
@@ -519,5 +620,28 @@ def patternWF (p : Str) : Bool := (words p).all wordWF
 def simplePatternWF (p : Str) : Bool :=
   p ≠ [] && (splitOn ' ' p).all fun w =>
     w ≠ [] && (match Word.ofStr w with | .one (.lit _) => true | _ => false)
+
+/-! ## 5. Decidable side conditions used as theorem hypotheses (reported by the driver for every
+    explored case) -/
+
+/-- token-type invariant the compiled literal guards rely on, plus "only names carry a varid" -/
+def TokWF (t : Tok) : Bool :=
+  (lookupTypes t.str tokTypes = [] || (lookupTypes t.str tokTypes).contains t.ty)
+  && (t.varId = 0 || t.isName)
+
+/-- the pattern is a C string: it contains no NUL byte (a `const char*` ends at the first NUL, the
+    model's `List Char` would carry on behind it) -/
+def noNul (p : Str) : Bool := p.all (· ≠ '\x00')
+
+/-- token text the interpreter handles like the documented language: no blank, no NUL.
+    (`Token::Match` compares `tok->str().c_str()` bytewise against the pattern: a blank inside the
+    token is taken for the pattern's word separator, and a NUL ends `c_str()`.)  The empty text is
+    allowed. -/
+def TokStrOK (t : Tok) : Bool := t.str.all (fun c => c ≠ ' ' && c ≠ '\x00')
+
+def wordUsesVarid : Word → Bool
+  | .alts as _ => as.any (· = .cmd .varid)
+  | .one a => a = .cmd .varid
+  | _ => false
 
 end Cppcheck.Match
